@@ -109,3 +109,15 @@ func Harness_C17_data() {
 	verifAssert(got == a+1 && len(og.emitted) == 1 && og.emitted[0] == "x", "t_unit_call: package_info call with unit result")
 	verifCover("end")
 }
+
+func Harness_C17_generic_twice() {
+	a := verifInt("a")
+	s := symBuf("s", 1)
+	r := t_generic_twice(a, s)
+	verifAssert(r.E0 == s && r.E1 == a, "t_generic_twice: a generic package_info function is instantiated independently at every call")
+	xs, ss := []int{a, 2}, []string{s, "k"}
+	verifAssert(t_take_twice(xs, ss) == 2, "t_take_twice")
+	h := t_head_twice(xs, ss)
+	verifAssert(h.E0 == s && h.E1 == a, "t_head_twice")
+	verifCover("end")
+}
